@@ -311,6 +311,10 @@ def arg_tuples(params, const, limit=6):
             add(("o1", "k"))
             add(("k", "o2"))
             add(("k", "k"))
+    if len(params) == 3 and all(t == "t1" for _, t in params):
+        # all distinct, each way of exactly one equal pair, all equal
+        for t in (("o1", "o2", "o3"), ("o1", "o1", "o2"), ("o1", "o2", "o1"), ("o2", "o1", "o1"), ("o1", "o1", "o1")):
+            add(t)
     for t in allt:
         if len(pick) >= limit:
             break
